@@ -13,7 +13,7 @@ from sim.dsl import msg
 from . import generic
 
 
-def stream_cases(pid, seed, tier, *, record=None, K=(12, 24), monitor=1.0, fly=0.4, kinds=None):
+def stream_cases(pid, seed, tier, *, record=None, K=(12, 24), monitor=1.0, fly=0.4, kinds=None, read_faults=0.0):
     rng = gen.rng_for(pid, seed)
     specs = gen.gen_world(rng, flyers=1, p_async=0.25)
     specs["sigS"] = {"kind": "signal", "initial": 0}
@@ -80,4 +80,8 @@ def stream_cases(pid, seed, tier, *, record=None, K=(12, 24), monitor=1.0, fly=0
             decs.append(d)
         c["script"][ci]["decisions"] = decs
         c["script"][ci]["final"] = rng.choice(["resume", "resume", "abort", "stop"])
+        if read_faults and rng.random() < read_faults:
+            # the monitored signal cannot be read at one of its updates (the engine's monitor subscriber reads it):
+            # that update yields no event - and uses up no seq_num
+            c["devices"]["sig1"].setdefault("faults", {})[f"read#{rng.choice([1, 2, 3, 4])}"] = {"kind": "raise", "exc": "RuntimeError"}
         yield c
